@@ -161,6 +161,16 @@ func c16Scns() []c16scn {
 			}
 			return append(bad, once("j2", e.adds["j2"][0]+500*time.Millisecond)(e)...)
 		}},
+		{"rem-the-head-job-then-a-later-job-is-due", []func(e *c16env){
+			func(e *c16env) { e.add("j1", "+1s"); e.add("j2", "+1500ms"); e.rem("j1") },
+		}, func(e *c16env) []string {
+			var bad []string
+			due := e.adds["j1"][0] + time.Second
+			if n, ts := countFires(e, "j1"); n != 0 && e.remAt["j1"] < due {
+				bad = append(bad, fmt.Sprintf("removed-job-fired:j1 was removed at +%v (due +%v) but fired %v", e.remAt["j1"], due, ts))
+			}
+			return append(bad, once("j2", e.adds["j2"][0]+1500*time.Millisecond)(e)...)
+		}},
 		{"concurrent-add-and-rem", []func(e *c16env){
 			func(e *c16env) { e.add("j1", "+1s") },
 			func(e *c16env) { vtime.Sleep(200 * time.Millisecond); e.rem("j1") },
@@ -307,7 +317,7 @@ func init() {
 	lib.Register(&lib.Check{
 		ID:    "C16",
 		Level: "model_checking",
-		Rule: "schedule exploration with virtual time (deviation bound 2 quick / 3 thorough; an early timer landing is a deviation) of the in-memory cron's loop goroutine, firing goroutines and 1-2 clients over 8 scenarios (one-shots, concurrent replace of one id, add+rem before due, concurrent add/rem, recurring then rem, suspend/resume, pause, replace recurring by one-shot), horizon 4 virtual seconds; " +
+		Rule: "schedule exploration with virtual time (deviation bound 2 quick / 3 thorough; an early timer landing is a deviation) of the in-memory cron's loop goroutine, firing goroutines and 1-2 clients over 9 scenarios (one-shots, removal of the head job with a later job behind it, concurrent replace of one id, add+rem before due, concurrent add/rem, recurring then rem, suspend/resume, pause, replace recurring by one-shot), horizon 4 virtual seconds; " +
 			"states = distinct observed outcomes, traces = schedules executed",
 		Assumptions: []string{
 			"callbacks are instantaneous in virtual time; a callback's firing time is read from the virtual clock inside the callback",
